@@ -1,14 +1,22 @@
 CONSTANTS NP = 4
   Names <- Names2
-  Hws <- Hws2
+  Hws <- Hws1
   Sts <- St1
   ProbeNames <- PNames
   ProbeHws <- PHws
-  InitSets <- Init4
+  InitSets <- Init4h
   MaxEarly = 1
   D = 0
 INIT Init
 NEXT Next
 VIEW viewE
 ACTION_CONSTRAINT ExportG
+INVARIANT TypeOK
+INVARIANT CurIsOrigPlusNotes
+INVARIANT UntouchedAsReported
+INVARIANT ObservedTruth
+PROPERTY ObservedTruthA
+PROPERTY OnlyNamedPort
+PROPERTY FeaturesStartOver
+PROPERTY OthersLeaveAlone
 CHECK_DEADLOCK FALSE
